@@ -327,10 +327,13 @@ func (tnc *TNC) runControlLoop() error {
 
 func (tnc *TNC) eof() {
 	tnc.connected = false // Set to true when the TNC reports CONNECTED
+
+	// Data of the link that just ended must never be read by a later connection.
+	close(tnc.dataIn) // Signals EOF to pending reads
+	tnc.dataIn = make(chan []byte, 4096)
+
 	if tnc.data != nil {
-		close(tnc.dataIn)       // Signals EOF to pending reads
 		tnc.data.signalClosed() // Signals EOF to pending writes
-		tnc.dataIn = make(chan []byte, 4096)
 		tnc.data = nil
 	}
 }
